@@ -207,6 +207,12 @@ def selecting (svcs : List Svc) (T n : String) (calls : List Call) : List (Strin
   calls.flatMap (fun cl =>
     (cl.batch.filter (fun rq => occOn (schemaAt svcs cl.url) T n rq != 0)).map (fun rq => (cl.url, rq)))
 
+/-- `down` behind a validating front: a batch with a request that is not `ValidFor` the schema of
+    the service called is refused (as a fault) instead of being handed to `down` -/
+def guardValid (svcs : List Svc) (down : Downstream) : Downstream := fun url batch =>
+  if batch.all (fun rq => ValidFor (schemaAt svcs url) rq) then down url batch
+  else .error (.panic "invalid sub-request")
+
 /-- a follow-up lookup has exactly the form `query($id: ID!) { node(id: $id) { ... on T { sub } } }` -/
 def IsNodeLookup (T : String) (sub : List Sel) (rq : Request) : Prop :=
   rq.header.kind = .query ∧ rq.header.name = none ∧ rq.header.varDecls = ["$id: ID!"] ∧
